@@ -104,6 +104,13 @@ def gen_source(rng, budget, opts, direction):
         sc['error_at'] = rng.randint(0, count)
     if direction == 'c':
         sc['start_idx'] = 1
+    if rng.random() < opts.get('lib_streams', 0.0):
+        # rsocket.streams.EmptyStream / ErrorStream: zero elements, then the terminal signal on the first request
+        sc = {'src': _pick(rng, [(1, 'lib-empty'), (1, 'lib-error')]), 'count': 0, 'lens': sc['lens'], 'end': 'separate'}
+        if sc['src'] == 'lib-error':
+            sc['error_at'] = 0
+        if direction == 'c':
+            sc['start_idx'] = 1
     return sc
 
 
@@ -174,6 +181,9 @@ def gen_interaction(rng, iid, opts, cfgs):
         ia['resp'] = resp
         ia['pub'] = pub
         ia['sub'] = gen_sub(rng, resp.get('count', 0), opts, True)
+    if kind in ('fnf', 'push') and rng.random() < cancels * opts.get('cancel_sent', 0.0):
+        # the caller stops waiting for the 'sent' awaitable of a fire-and-forget / metadata-push
+        ia['cancel'] = {'at': _pick(rng, [(3, 0.0), (1, round(rng.uniform(0, 0.003), 5))]), 'hops': rng.randint(0, 3)}
     if kind in ('stream', 'channel') and rng.random() < cancels:
         if rng.random() < 0.08:
             ia['sub']['cancel_in_subscribe'] = True
